@@ -113,11 +113,12 @@ type World struct {
 	ops     []*op
 	active  int
 
-	rows   map[string][]byte // stored rows as last read through the verification connection
-	held   map[int]*sth      // reference model: the head held per log, in commit order
-	hist   map[int][]histEnt
-	known  map[string]*sth
-	signed map[string]*signedHead
+	rows     map[string][]byte // stored rows as last read through the verification connection
+	accepted map[int][]acceptedRaw
+	held     map[int]*sth // reference model: the head held per log, in commit order
+	hist     map[int][]histEnt
+	known    map[string]*sth
+	signed   map[string]*signedHead
 
 	// timed mode only (kernel.TimedWorld): real-time stamps and the lock that
 	// makes commit order, model and op generation one sequence
@@ -140,6 +141,7 @@ func (w *World) Init(s *kernel.Sim) {
 	registerDriver()
 	w.byParty = map[string]*op{}
 	w.rows = map[string][]byte{}
+	w.accepted = map[int][]acceptedRaw{}
 	w.held = map[int]*sth{}
 	w.hist = map[int][]histEnt{}
 	w.known = map[string]*sth{}
@@ -327,6 +329,40 @@ func (w *World) newOp() *op {
 	return o
 }
 
+// acceptedRaw is the exact byte string of a tree head that a log got stored.
+type acceptedRaw struct {
+	log  *logSpec
+	raw  []byte
+	size uint64
+}
+
+// acceptedAnywhere lists what feeders could have seen accepted: per log the
+// head stored now, heads without an embedded log id first (those are the ones
+// another log's id can be put on), then older ones.
+func (w *World) acceptedAnywhere() []acceptedRaw {
+	var noID, withID, old []acceptedRaw
+	for _, l := range w.logs {
+		list := w.accepted[l.idx]
+		for i, a := range list {
+			switch {
+			case i < len(list)-1:
+				old = append(old, a)
+			case bytes.Contains(a.raw, []byte(`"log_id"`)):
+				withID = append(withID, a)
+			default:
+				noID = append(noID, a)
+			}
+		}
+	}
+	// weight by repetition: current id-less heads x4, current with id x1, older x1
+	var out []acceptedRaw
+	for i := 0; i < 4; i++ {
+		out = append(out, noID...)
+	}
+	out = append(out, withID...)
+	return append(out, old...)
+}
+
 func (w *World) otherLog(l *logSpec) *logSpec {
 	if len(w.logs) == 1 {
 		return w.stranger
@@ -343,10 +379,50 @@ func (w *World) drawUpdate(o *op) {
 	if h := w.hist[l.idx]; len(h) > 1 && t.Chance(1, 8) {
 		believed = h[t.Intn(len(h)-1)].h
 	}
-	kinds := []string{"extend", "any", "stale", "replay", "otherlog", "unknownlog", "mismatchid", "wrongkey", "badsig", "garbage", "badversion", "fork"}
-	o.CandKind = kinds[t.Pick([]int{16, 4, 2, 2, 1, 1, 1, 1, 1, 1, 1, 4})]
+	kinds := []string{"extend", "any", "stale", "replay", "otherlog", "unknownlog", "mismatchid", "wrongkey", "badsig", "garbage", "badversion", "fork", "crosslog"}
+	cross := 0
+	if len(w.logs) > 1 && len(w.acceptedAnywhere()) > 0 {
+		cross = 5
+	}
+	o.CandKind = kinds[t.Pick([]int{16, 4, 2, 2, 1, 1, 1, 1, 1, 1, 1, 4, cross})]
+	if o.CandKind == "crosslog" {
+		// the exact bytes another log got accepted, sent to this log: often to one
+		// that holds nothing yet (first use), otherwise as an update with a proof drawn as usual
+		src := w.acceptedAnywhere()
+		a := src[t.Intn(len(src))]
+		var targets, empty []*logSpec
+		for _, x := range w.logs {
+			if x != a.log {
+				targets = append(targets, x)
+				if w.held[x.idx] == nil {
+					empty = append(empty, x)
+				}
+			}
+		}
+		if len(empty) > 0 && t.Chance(2, 3) {
+			targets = empty
+		}
+		l = targets[t.Intn(len(targets))]
+		o.Log, o.IDSent = l, l.idB64
+		cur = w.held[l.idx]
+		believed = cur
+		h, _ := parseSTH(a.raw)
+		id := "no id"
+		if h != nil && len(h.LogID) != 0 {
+			id = "+id"
+		}
+		c0 := w.mkCand(fmt.Sprintf("%s bytes accepted by %s @%d %s", l.name, a.log.name, a.size, id), append([]byte(nil), a.raw...), a.log, treeOf(a.log, h), int(a.size))
+		o.Cand = c0
+		w.s.Probe("crosslog.sent")
+		if cur == nil {
+			w.s.Probe("crosslog.first-use")
+		}
+		if id == "no id" {
+			w.s.Probe("crosslog.no-id")
+		}
+	}
 	embed := t.Chance(1, 2)
-	var c *cand
+	c := o.Cand
 	switch o.CandKind {
 	case "extend":
 		bt, n := w.pickExtension(l, believed)
